@@ -31,6 +31,30 @@ extern "C" void vp_thr_worker(thread_data* td, int tid) {
   if (t) static_cast<delegated_task*>(t)->delegated_task::execute(td->my_task_dispatcher->m_execute_data_ext);
   vp_done(tid);
 }
+// run the delegated task on the calling thread's current dispatcher (r1::wait stub of the E-side harness: the entrant got a slot and runs its dispatch loop)
+extern "C" void vp_dt_execute(d1::task* t, thread_data* td) { static_cast<delegated_task*>(t)->delegated_task::execute(td->my_task_dispatcher->m_execute_data_ext); }
+// E-side harness (nested_arena_context ctor/dtor cut): the leave sequence of ~nested_arena_context, used by the dtor stub and by the leaving occupant
+extern "C" void vp_leave_slot(arena* a, unsigned i) { a->my_slots[i].release(); a->my_exit_monitors.notify_one(); }
+extern "C" void vp_thr_leaver2(arena* a, int slot, int tid) {
+  a->my_slots[slot].release();
+  a->my_exit_monitors.notify_one(); // do not relax!
+  vp_done(tid);
+}
+// L-side harness: a minimal entrant with the same hand-shake as task_arena_impl::execute (prepare_wait -> slot test -> commit_wait | cancel_wait)
+extern "C" void vp_thr_waiter(arena* a, int tid) {
+  concurrent_monitor::thread_context waiter((std::uintptr_t)tid + 1);
+  thread_data* td = governor::get_thread_data();
+  std::size_t idx;
+  for (;;) {
+    a->my_exit_monitors.prepare_wait(waiter);
+    idx = a->occupy_free_slot</*as_worker*/false>(*td);
+    if (idx != arena::out_of_arena) { a->my_exit_monitors.cancel_wait(waiter); break; }
+    a->my_exit_monitors.commit_wait(waiter);
+  }
+  vp_functor(tid);
+  a->my_slots[idx].release();
+  vp_done(tid);
+}
 extern "C" int vp_wait_ctx_done(d1::wait_context* w) { return !w->continue_execution(); }
 
 // ---- pre-state
